@@ -237,4 +237,236 @@ pub fn run(cfg: &Cfg, rep: &mut Report) {
             }
         }
     });
+    run_typed(cfg, rep);
+}
+
+// ---- typed parameter API ------------------------------------------------------------------------
+//
+// The `arity` stage observes raw tokens (`next_token` / `next_optional_token`). Handlers in the field use
+// the typed calls `Parameters::next_data::<T>()` / `next_optional_data::<T>()`; this stage drives those,
+// on a tree built with the library's `Node::root/leaf/branch/default_*` constructors, with element types
+// whose converted value identifies the element (numbers by value, strings/blocks/characters by payload).
+
+#[derive(Clone, Copy, Debug, PartialEq, Eq)]
+enum TK {
+    I64,
+    F64,
+    Bytes,
+    Arb,
+    Chr,
+}
+
+#[derive(Clone, Debug, PartialEq)]
+enum TV {
+    I64(i64),
+    F64(u64),
+    Bytes(Vec<u8>),
+    Absent,
+    Err(i16),
+}
+
+#[derive(Default)]
+struct TDev {
+    /// what the typed handler obtained, in order
+    got: Vec<TV>,
+    /// data seen by the follower command `B`
+    follower: Vec<Vec<i64>>,
+    hook: Vec<i16>,
+}
+
+impl scpi::Device for TDev {
+    fn handle_error(&mut self, err: scpi::error::Error) {
+        self.hook.push(err.get_code());
+    }
+}
+
+struct TypedCmd {
+    pulls: Vec<(bool, TK)>,
+}
+
+impl TypedCmd {
+    fn go(&self, dev: &mut TDev, params: &mut scpi::parser::parameters::Parameters) -> scpi::error::Result<()> {
+        use scpi::parser::format::{Arbitrary, Character};
+        macro_rules! pull {
+            ($opt:expr, $t:ty, $wrap:expr) => {{
+                if $opt {
+                    match params.next_optional_data::<$t>() {
+                        Ok(Some(v)) => dev.got.push($wrap(v)),
+                        Ok(None) => dev.got.push(TV::Absent),
+                        Err(e) => {
+                            dev.got.push(TV::Err(e.get_code()));
+                            return Err(e);
+                        }
+                    }
+                } else {
+                    match params.next_data::<$t>() {
+                        Ok(v) => dev.got.push($wrap(v)),
+                        Err(e) => {
+                            dev.got.push(TV::Err(e.get_code()));
+                            return Err(e);
+                        }
+                    }
+                }
+            }};
+        }
+        for (opt, k) in &self.pulls {
+            match k {
+                TK::I64 => pull!(*opt, i64, |v: i64| TV::I64(v)),
+                TK::F64 => pull!(*opt, f64, |v: f64| TV::F64(v.to_bits())),
+                TK::Bytes => pull!(*opt, &[u8], |v: &[u8]| TV::Bytes(v.to_vec())),
+                TK::Arb => pull!(*opt, Arbitrary, |v: Arbitrary| TV::Bytes(v.0.to_vec())),
+                TK::Chr => pull!(*opt, Character, |v: Character| TV::Bytes(v.0.to_vec())),
+            }
+        }
+        Ok(())
+    }
+}
+
+impl scpi::tree::prelude::Command<TDev> for TypedCmd {
+    fn event(&self, dev: &mut TDev, _c: &mut Context, mut params: scpi::parser::parameters::Parameters) -> scpi::error::Result<()> {
+        self.go(dev, &mut params)
+    }
+    fn query(&self, dev: &mut TDev, _c: &mut Context, mut params: scpi::parser::parameters::Parameters, mut resp: scpi::parser::response::ResponseUnit) -> scpi::error::Result<()> {
+        self.go(dev, &mut params)?;
+        resp.data(1u8).finish()
+    }
+}
+
+struct Follower;
+impl scpi::tree::prelude::Command<TDev> for Follower {
+    fn event(&self, dev: &mut TDev, _c: &mut Context, mut params: scpi::parser::parameters::Parameters) -> scpi::error::Result<()> {
+        let mut v = vec![];
+        while let Some(x) = params.next_optional_data::<i64>()? {
+            v.push(x);
+        }
+        dev.follower.push(v);
+        Ok(())
+    }
+}
+
+pub fn run_typed(cfg: &Cfg, rep: &mut Report) {
+    use scpi::tree::Node;
+    let n = cfg.n(60, 300_000, 12_000_000);
+    run_cases(cfg, "typed-api", n, rep, |rng, ctx| {
+        bump(ctx, 1);
+        let np = rng.usize(6);
+        let pulls: Vec<(bool, TK)> = (0..np).map(|_| (rng.chance(2, 5), *rng.pick(&[TK::I64, TK::F64, TK::Bytes, TK::Arb, TK::Chr]))).collect();
+        let cmd = TypedCmd { pulls: pulls.clone() };
+        let fol = Follower;
+        // A[:SUB] (default leaf inside a branch), TYPed (plain leaf), B (follower): all through the constructors
+        let sub = [Node::default_leaf(b"SUB", &cmd), Node::leaf(b"OTHer", &fol)];
+        let dsub = [Node::leaf(b"DEEP", &cmd)];
+        let children = [Node::branch(b"A", &sub), Node::leaf(b"TYPed", &cmd), Node::leaf(b"B", &fol), Node::default_branch(b"OPTional", &dsub)];
+        let root = Node::root(&children);
+        // number of elements sent: around the number of pulls
+        let nsent = match rng.usize(4) {
+            0 => np,
+            1 => np + 1 + rng.usize(2),
+            _ => rng.usize(np + 1),
+        };
+        let mut msg: Vec<u8> = Vec::new();
+        let query = rng.chance(1, 3);
+        let (hdr, hdr_follow): (&[u8], &[u8]) = *rng.pick(&[(&b"A"[..], &b":B"[..]), (b"A:SUB", b":B"), (b"a:sub", b"OTH"), (b"TYP", b"B"), (b"typed", b"b"), (b"DEEP", b":b"), (b"OPT:DEEP", b":B"), (b":A", b"a:oth")]);
+        msg.extend_from_slice(hdr);
+        if query {
+            msg.push(b'?');
+        }
+        let mut want: Vec<TV> = vec![];
+        for i in 0..nsent {
+            msg.extend_from_slice(if i == 0 { b" " } else { *rng.pick(&[&b","[..], b" ,", b", ", b" , "]) });
+            let kind = if i < np { pulls[i].1 } else { *rng.pick(&[TK::I64, TK::Bytes, TK::Chr]) };
+            let val = match kind {
+                TK::I64 => {
+                    let v = rng.range(-100_000, 100_000);
+                    msg.extend_from_slice(format!("{}", v).as_bytes());
+                    TV::I64(v)
+                }
+                TK::F64 => {
+                    let v = rng.range(-4000, 4000) as f64 / 8.0;
+                    msg.extend_from_slice(format!("{:?}", v).as_bytes());
+                    TV::F64(v.to_bits())
+                }
+                TK::Bytes => {
+                    let q = if rng.bool() { b'"' } else { b'\'' };
+                    let s: Vec<u8> = (0..rng.usize(9)).map(|_| *rng.pick(b"ab;,: ?#1\n")).collect();
+                    msg.push(q);
+                    msg.extend_from_slice(&s);
+                    msg.push(q);
+                    TV::Bytes(s)
+                }
+                TK::Arb => {
+                    let s: Vec<u8> = (0..rng.usize(10)).map(|_| *rng.pick(b";,\n'\"#x\x00\xff")).collect();
+                    msg.extend_from_slice(format!("#1{}", s.len()).as_bytes());
+                    msg.extend_from_slice(&s);
+                    TV::Bytes(s)
+                }
+                TK::Chr => {
+                    let s: &[u8] = *rng.pick(&[&b"ABC"[..], b"x", b"Z9_y", b"MAXimum", b"B"]);
+                    msg.extend_from_slice(s);
+                    TV::Bytes(s.to_vec())
+                }
+            };
+            if i < np {
+                want.push(val);
+            }
+        }
+        // pulls beyond the data sent
+        let mut expect_err: Option<i16> = None;
+        for i in nsent..np {
+            if pulls[i].0 {
+                want.push(TV::Absent);
+            } else {
+                want.push(TV::Err(-109));
+                expect_err = Some(-109);
+                break;
+            }
+        }
+        if expect_err.is_none() && nsent > np {
+            expect_err = Some(-108);
+        }
+        // a following unit with its own data
+        let fdata: Vec<i64> = (0..rng.usize(3)).map(|_| rng.range(-99, 99)).collect();
+        msg.extend_from_slice(*rng.pick(&[&b";"[..], b" ;", b"; "]));
+        msg.extend_from_slice(hdr_follow);
+        for (i, d) in fdata.iter().enumerate() {
+            msg.extend_from_slice(if i == 0 { b" " } else { b"," });
+            msg.extend_from_slice(format!("{}", d).as_bytes());
+        }
+        if rng.bool() {
+            msg.push(b'\n');
+        }
+        ctx.nontrivial(hash_bytes(&msg) ^ hash_str(&format!("{:?}", pulls)));
+        let mut dev = TDev::default();
+        let mut c = Context::default();
+        let mut out: Vec<u8> = Vec::new();
+        let r = root.run(&msg, &mut dev, &mut c, &mut out);
+        ctx.add("typed.pulls-observed", dev.got.len() as u64);
+        let detail = || jobj(&[("message", jbytes(&msg)), ("pulls(optional,type)", jstr(&format!("{:?}", pulls))), ("expected_values", jstr(&format!("{:?}", want))), ("observed_values", jstr(&format!("{:?}", dev.got))), ("follower_saw", jstr(&format!("{:?}", dev.follower))), ("result", jstr(&format!("{:?}", r.as_ref().map_err(|e| e.get_code())))), ("hook", jstr(&format!("{:?}", dev.hook)))]);
+        if dev.got != want {
+            let sig = if dev.got.len() == want.len() && dev.got.iter().zip(want.iter()).any(|(g, w)| matches!((g, w), (TV::Absent, TV::Err(_)) | (TV::Err(_), TV::Absent) | (TV::Absent, _) | (_, TV::Absent))) { "presence" } else { "values" };
+            ctx.violation(&format!("C06:typed-api:handler-obtained-different-{}", sig), detail());
+            return;
+        }
+        match (r.as_ref().err().map(|e| e.get_code()), expect_err) {
+            (None, None) => {
+                ctx.count("typed.messages.ok");
+                if dev.follower != vec![fdata.clone()] {
+                    ctx.violation("C06:typed-api:following-unit-saw-different-data", detail());
+                }
+                if !dev.hook.is_empty() {
+                    ctx.violation("C06:typed-api:hook-called-on-success", detail());
+                }
+            }
+            (Some(a), Some(b)) if a == b => {
+                ctx.count(&format!("typed.messages.err{}", a));
+                if !dev.follower.is_empty() {
+                    ctx.violation("C06:typed-api:next-unit-started-after-arity-error", detail());
+                }
+                if dev.hook != vec![a] {
+                    ctx.violation("C06:typed-api:error-not-reported-once", detail());
+                }
+            }
+            (got, exp) => ctx.violation(&format!("C06:typed-api:expected{:?}-got{:?}", exp, got), detail()),
+        }
+    });
 }
